@@ -1,0 +1,11 @@
+//go:build verif
+
+// Copyright 2025 NVIDIA CORPORATION
+// SPDX-License-Identifier: Apache-2.0
+
+package framework
+
+// PluginForSim returns the plugin instance of the session (simulation harness only).
+func (ssn *Session) PluginForSim(name string) Plugin {
+	return ssn.plugins[name]
+}
